@@ -13,6 +13,7 @@ import (
 	"math/rand"
 	"os"
 	"os/exec"
+	"os/signal"
 	"path/filepath"
 	"sort"
 	"strconv"
@@ -432,7 +433,34 @@ func (r *Run) finish() int {
 	return code
 }
 
+// unignoreSignals: a process started as a background job of a non-interactive shell (cmd &),
+// under nohup, or by some CI runners inherits SIGINT / SIGQUIT as *ignored*, and the Go runtime
+// and every process it starts keep them ignored. testscript stops background and timed-out
+// commands with exactly these signals, so under such a parent the code under test could not
+// stop anything (observed: every C04 batch whose script ends with jobs outstanding hung).
+// Installing a handler here makes the dispositions "caught" in this process, and caught signals
+// are reset to their default action in every process started from it.
+func unignoreSignals() {
+	var sigs []os.Signal
+	for _, sg := range []syscall.Signal{syscall.SIGINT, syscall.SIGQUIT} {
+		if signal.Ignored(sg) {
+			sigs = append(sigs, sg)
+		}
+	}
+	if len(sigs) == 0 {
+		return
+	}
+	c := make(chan os.Signal, 1)
+	signal.Notify(c, sigs...)
+	go func() {
+		// this process itself keeps ignoring them, as its parent intended
+		for range c {
+		}
+	}()
+}
+
 func supervise(id, level string, watchdog time.Duration) int {
+	unignoreSignals()
 	if r := os.Getenv("VERIF_WATCHDOG_SCALE"); r != "" {
 		if f, err := strconv.ParseFloat(r, 64); err == nil && f > 0 {
 			watchdog = time.Duration(float64(watchdog) * f)
